@@ -7,6 +7,7 @@ CONSTANTS
   Parents <- SimParents
   CtxOf <- McCtxOf
   Removable <- SimRemovable
+  OtherMds <- McOtherMds
   BeginKinds <- AllKinds
   KeepH <- SimH
   TrackH = "none"
